@@ -31,6 +31,9 @@ SEPS = ["", " ", "\t", ",", "\n", "\r\n", "\r", "\ufeff", "#c\n", " , \n#\r"]
 EDIT = ["a", "1", ".", '"', "\\", "#", "\n", " ", "-", "e", "{", "$", "\ud83d", "\x00"]
 
 
+BLOCK_SIGMA = ["a", " ", "\n", '"', "\\", "\r"]
+
+
 def _L(tier):
     return 4 if tier == "quick" else 5
 
@@ -41,6 +44,9 @@ def shards(tier):
         for j in (range(len(SIGMA)) if tier == "thorough" else [None]):
             out.append(("lex", (i, j)))
     out.append(("lexshort", None))
+    for i in range(len(BLOCK_SIGMA)):
+        for j in range(len(BLOCK_SIGMA)):
+            out.append(("blockstrip", (i, j)))
     k = 1 if tier == "quick" else 2
     for mode in ("executable", "typesystem", "extension", "mixed"):
         for fa, dd in ((False, False), (True, True), (True, False), (False, True)):
@@ -316,6 +322,26 @@ def run_shard(shard, tier):
                 res.transitions += 1
                 if g:
                     res.outcome(tuple(t[0] for t in g))
+    elif kind == "blockstrip":
+        # every block-string body over a small alphabet through strip_ignored_characters:
+        # the minimised block string must keep its value (reference BlockStringValue)
+        i, j = arg
+        LB = 6 if tier == "quick" else 7
+        nsym = 5 if tier == "quick" else 6
+        if i >= nsym or j >= nsym:
+            return res
+        for n in range(0, LB - 1):
+            for tup in itertools.product(BLOCK_SIGMA[:nsym], repeat=n):
+                body = BLOCK_SIGMA[i] + BLOCK_SIGMA[j] + "".join(tup)
+                bodies = [body] if n else [body, BLOCK_SIGMA[i]] + ([""] if i == 0 and j == 0 else [])
+                for b in bodies:
+                    for s in ('"""' + b + '"""', 'x """' + b + '""" y'):
+                        res.states += 1
+                        res.transitions += 1
+                        lexes = ref.tokens(s) is not None
+                        check_lex(s, res, viol)
+                        check_strip(s, lexes, res, viol)
+        res.sample({"source": '"""\na\n\n b"""', "check": "strip keeps the block string value"})
     elif kind == "lex":
         i, j = arg
         L = _L(tier)
